@@ -394,6 +394,8 @@ class WG(DG):
             typeless = cd.split(" ")[2].rstrip(")") == "-"
             if "(extra " in cd and (no_extra or typeless):
                 continue
+            if cd.count("(using ") > 1:
+                continue   # Postgres has one USING per ALTER COLUMN .. TYPE: a repeated one is outside the dialect
             return cd
         return "(cd %s int)" % self.ident()
 
